@@ -35,6 +35,11 @@ def programs():
                                      "dispatch": {"k": "apply", "src": DS(1), "fn": "tostr", "n": 1},
                                      "overloads": [["str:('T', (('s', 'ds1'), ('s', 'default'), ('s', 'x')))", {"args": [], "tag": "ov:x"}],
                                                    ["str:('T', (('s', 'ds1'), ('s', 'default'), ('s', 'y')))", {"expr": O("B", dk="const", dv=2)}]]}))
+    add("overload-bare-option", prog({"k": "tuple", "items": [DS(1), DS(2)]},
+                                     d1={"args": [["a", O("A", dk="const", dv=0)]], "dispatch": "D", "cache": "nocache",
+                                         "overloads": [["x", {"expr": O("B")}], ["y", {"expr": {"k": "tmpl", "text": "t{C}", "params": []}}]]},
+                                     d2={"args": [["a", O("A", dk="const", dv=0)]], "dispatch": O("D", dk="const", dv="x"),
+                                         "overloads": [["x", {"expr": O("S.X", dk="const", dv="sx")}], ["y", {"expr": O("E", dk="const", dv=1)}]]}))
     add("abstract", prog({"k": "coalesce", "members": [DS(1), C("fallback")]},
                          d1={"args": [], "abstract": True, "dispatch": "D", "overloads": [["x", {"args": [["b", O("B")]]}], ["y", {"args": []}]]}))
     # 3 templated references
@@ -49,6 +54,8 @@ def programs():
                                      "options": {"S": {"X": 1}}, "default_options": {"A": "dflt", "S": {"Y": 5}}}))
     add("derive-with", prog({"k": "tuple", "items": [DS(1), DS(1, P={"A": 1}), DS(1, P={"A": 2}), DS(1, D={"A": 3})]},
                             d1={"args": [["a", O("A", dk="const", dv="none")], ["b", O("B", dk="const", dv=0)]], "callback": "c1", "effects": ["e"]}))
+    add("derive-section-order", prog({"k": "tuple", "items": [DS(1, P={"S": {"Y": 3}}), DS(1, D={"S": {"Y": 3}}), DS(1, P={"S": {"Y": 3}}, D={"A": 1})]},
+                                     d1={"args": [["s", O("S", dk="const", dv=None)], ["a", O("A", dk="const", dv=0)]], "effects": ["e"]}))
     add("with-section", prog({"k": "cached", "spec": {"k": "with", "spec": O("S"), "P": {"S": {"X": 1}}, "force": True}}))
     add("with-section-ds", prog(DS(1), d1={"args": [["s", {"k": "with", "spec": O("S"), "P": {"S": {"X": 1}}, "force": True}]]}))
     add("with-default-section", prog({"k": "cached", "spec": {"k": "with", "spec": {"k": "tuple", "items": [O("S"), O("A", dk="const", dv=0)]}, "P": {"S": {"X": 1}, "A": 5}, "force": False}}))
